@@ -20,6 +20,7 @@ CONSTANTS MaxNodes = {maxn}
           Hist = {hist}
           MaxHist = {maxh}
           AskAt = {askat}
+          Tier = "{tier}"
           Sim = {sim}
           Dev = {dev}
 {view}
@@ -38,9 +39,9 @@ CHECK_DEADLOCK FALSE
 """
 
 
-def gen_cfg(fam, maxn=2, maxr=0, labels=L_A, p="one", q="none", r="none", types=T1, canon=True, hist=False, maxh=8, askat=1, sim=False,
+def gen_cfg(fam="scanL", tier="single", maxn=2, maxr=0, labels=L_A, p="one", q="none", r="none", types=T1, canon=True, hist=False, maxh=8, askat=1, sim=False,
             dev="{}", view="VIEW View", emit="ACTION_CONSTRAINT EmitAsk", inv=LAWS):
-    return GEN.format(askat=askat, sim="TRUE" if sim else "FALSE", fam=fam, maxn=maxn, maxr=maxr, labels=labels, p=p, q=q, r=r, types=types, canon="TRUE" if canon else "FALSE",
+    return GEN.format(askat=askat, tier=tier, sim="TRUE" if sim else "FALSE", fam=fam, maxn=maxn, maxr=maxr, labels=labels, p=p, q=q, r=r, types=types, canon="TRUE" if canon else "FALSE",
                       hist="TRUE" if hist else "FALSE", maxh=maxh, dev=dev, view=view, emit=emit, inv=inv)
 
 
@@ -54,14 +55,14 @@ def trace_cfg(ctx):
 
 
 def batch(scripts, per=25, extra=None):
-    """TLC prints one (graph history, query) case per script; cases sharing the history are replayed on one store:
-    history steps followed by up to `per` Query steps.  `extra(step)` may add fields to a Query step."""
+    """TLC prints one (graph history, query) case per script; cases sharing the history (and family) are replayed on one
+    store: history steps followed by up to `per` Query steps.  `extra(step)` may add fields to a Query step."""
     groups, order = {}, []
     for s in scripts:
         k = 0
         while k < len(s) and s[k]["op"] != "Query":
             k += 1
-        key = json.dumps(s[:k], sort_keys=True)
+        key = json.dumps([s[:k], s[k].get("fam") if k < len(s) else None], sort_keys=True)
         if key not in groups:
             groups[key] = (s[:k], [])
             order.append(key)
